@@ -181,6 +181,8 @@ impl LeafUpdater {
 
             Ok(DigestResult::Finished)
         } else if self.gauge.body_size() >= LEAF_MERGE_THRESHOLD || self.cutoff.is_none() {
+            #[cfg(feature = "verif-hooks")]
+            verif::note_gauge(&self.gauge);
             let node = self.build_leaf(&self.ops);
             let separator = self.separator();
 
@@ -361,6 +363,8 @@ impl LeafUpdater {
         // or accept a size below the target only if an item causes the node to transition
         // from a body size below the target to overfull.
         if gauge.body_size() >= target || from_below_target_to_overfull {
+            #[cfg(feature = "verif-hooks")]
+            verif::note_gauge(&gauge);
             Some(pos - from)
         } else {
             self.gauge = gauge;
@@ -430,6 +434,8 @@ impl LeafUpdater {
                 (acc_n + n, acc_size + size)
             });
 
+        #[cfg(feature = "verif-hooks")]
+        verif::note_builder(n_values, total_value_size);
         let mut leaf_builder = LeafBuilder::new(&self.page_pool, n_values, total_value_size);
 
         for op in ops {
@@ -522,6 +528,213 @@ impl LeafGauge {
 
     fn body_size(&self) -> usize {
         leaf_node::body_size(self.n, self.value_size_sum)
+    }
+}
+
+/// Verification hook: drive the real `LeafUpdater` (with `LeafGauge`, `LeafBuilder`, the split and
+/// merge logic of `digest`) over chosen base leaves and operations and report every leaf it
+/// builds with what the gauge computed for it. Add-only, no change of behaviour.
+#[cfg(feature = "verif-hooks")]
+pub(crate) mod verif {
+    use super::{
+        leaf_node, Arc, BaseLeaf, DigestResult, HandleNewLeaf, Key, LeafBuilder, LeafGauge,
+        LeafNode, LeafOp, LeafUpdater, PagePool,
+    };
+    use std::cell::RefCell;
+
+    /// What was known about a leaf when it was built: the body size of the gauge that decided
+    /// to build it, the item count and the sum of value sizes `LeafBuilder` was created with.
+    #[derive(Clone, Copy, Debug, Default)]
+    pub struct Note {
+        pub gauge_body_size: usize,
+        pub builder_n: usize,
+        pub builder_values_size: usize,
+    }
+
+    thread_local! {
+        // (gauges noted, builders noted)
+        static NOTES: RefCell<Option<(Vec<usize>, Vec<(usize, usize)>)>> = RefCell::new(None);
+    }
+
+    pub(super) fn note_gauge(gauge: &LeafGauge) {
+        NOTES.with(|n| {
+            if let Some(v) = n.borrow_mut().as_mut() {
+                v.0.push(gauge.body_size());
+            }
+        });
+    }
+
+    pub(super) fn note_builder(n_values: usize, total_value_size: usize) {
+        NOTES.with(|n| {
+            if let Some(v) = n.borrow_mut().as_mut() {
+                v.1.push((n_values, total_value_size));
+            }
+        });
+    }
+
+    /// A cell: key, value bytes (or the bytes of the overflow cell), overflow flag.
+    pub type Cell = (Key, Vec<u8>, bool);
+
+    /// One step of the leaf stage's worker: `reset_base(base, cutoff)` (or `remove_cutoff()`),
+    /// `ingest` of every operation, `digest`.
+    pub struct Stage {
+        /// The cells of the base leaf (built with `LeafBuilder::push_cell`) and its separator.
+        pub base: Option<(Key, Vec<Cell>)>,
+        /// Keep the previous base and only call `remove_cutoff()` (`base` and `cutoff` unused).
+        pub remove_cutoff: bool,
+        /// Ascending keys in scope: `Some((value, overflow))` or `None` for a deletion.
+        pub ops: Vec<(Key, Option<(Vec<u8>, bool)>)>,
+        pub cutoff: Option<Key>,
+    }
+
+    pub struct Built {
+        /// Index of the stage whose `digest` built the leaf.
+        pub stage: usize,
+        pub separator: Key,
+        pub cutoff: Option<Key>,
+        pub note: Note,
+        pub page: Vec<u8>,
+    }
+
+    pub struct StageResult {
+        /// `Some(key)` when `digest` returned `NeedsMerge(key)`.
+        pub needs_merge: Option<Key>,
+        /// The updater's gauge after `digest`.
+        pub gauge_left: usize,
+        /// The overflow cells handed to `with_deleted_overflow` during the stage.
+        pub deleted_overflow: Vec<Vec<u8>>,
+    }
+
+    pub struct Output {
+        pub built: Vec<Built>,
+        pub stages: Vec<StageResult>,
+        /// The cells still waiting in the updater after the last stage (all `Insert` after a
+        /// `NeedsMerge`), and the separator override.
+        pub pending: Vec<Cell>,
+        pub pending_separator: Option<Key>,
+    }
+
+    struct Collect {
+        stage: usize,
+        built: Vec<(usize, Key, Option<Key>, Vec<u8>)>,
+    }
+
+    impl HandleNewLeaf for Collect {
+        fn handle_new_leaf(
+            &mut self,
+            separator: Key,
+            node: LeafNode,
+            cutoff: Option<Key>,
+        ) -> std::io::Result<()> {
+            self.built
+                .push((self.stage, separator, cutoff, node.inner.to_vec()));
+            Ok(())
+        }
+    }
+
+    /// Build a leaf from cells the way the tests' `make_leaf` does.
+    pub fn build(page_pool: &PagePool, cells: &[Cell]) -> LeafNode {
+        let total_value_size = cells.iter().map(|(_, v, _)| v.len()).sum();
+        let mut builder = LeafBuilder::new(page_pool, cells.len(), total_value_size);
+        for (k, v, overflow) in cells {
+            builder.push_cell(*k, v, *overflow);
+        }
+        builder.finish()
+    }
+
+    pub fn build_page(cells: &[Cell]) -> Vec<u8> {
+        build(&PagePool::new(), cells).inner.to_vec()
+    }
+
+    pub fn body_size(n: usize, values_size: usize) -> usize {
+        leaf_node::body_size(n, values_size)
+    }
+
+    pub fn rebuild(stages: Vec<Stage>) -> Output {
+        let page_pool = PagePool::new();
+        let mut updater = LeafUpdater::new(page_pool.clone(), None, None);
+        let mut collect = Collect {
+            stage: 0,
+            built: Vec::new(),
+        };
+        let mut results = Vec::new();
+        NOTES.with(|n| *n.borrow_mut() = Some((Vec::new(), Vec::new())));
+        for (i, stage) in stages.into_iter().enumerate() {
+            collect.stage = i;
+            if stage.remove_cutoff {
+                updater.remove_cutoff();
+            } else {
+                let base = stage.base.map(|(separator, cells)| {
+                    BaseLeaf::new(Arc::new(build(&page_pool, &cells)), separator)
+                });
+                updater.reset_base(base, stage.cutoff);
+            }
+            let mut deleted_overflow = Vec::new();
+            for (key, change) in stage.ops {
+                assert!(updater.is_in_scope(&key));
+                let (value, overflow) = match change {
+                    Some((value, overflow)) => (Some(value), overflow),
+                    None => (None, false),
+                };
+                updater.ingest(key, value, overflow, |cell| {
+                    deleted_overflow.push(cell.to_vec())
+                });
+            }
+            let needs_merge = match updater.digest(&mut collect) {
+                Ok(DigestResult::Finished) => None,
+                Ok(DigestResult::NeedsMerge(key)) => Some(key),
+                Err(_) => unreachable!("the collecting handler does not fail"),
+            };
+            results.push(StageResult {
+                needs_merge,
+                gauge_left: updater.gauge.body_size(),
+                deleted_overflow,
+            });
+        }
+        let (gauges, builders) = NOTES.with(|n| n.borrow_mut().take()).unwrap_or_default();
+        assert_eq!(gauges.len(), collect.built.len());
+        assert_eq!(builders.len(), collect.built.len());
+        let built = collect
+            .built
+            .into_iter()
+            .zip(gauges.into_iter().zip(builders))
+            .map(
+                |((stage, separator, cutoff, page), (gauge_body_size, (n, values_size)))| Built {
+                    stage,
+                    separator,
+                    cutoff,
+                    note: Note {
+                        gauge_body_size,
+                        builder_n: n,
+                        builder_values_size: values_size,
+                    },
+                    page,
+                },
+            )
+            .collect();
+        let pending = updater
+            .ops
+            .iter()
+            .flat_map(|op| match op {
+                LeafOp::Insert(k, v, o) => vec![(*k, v.clone(), *o)],
+                LeafOp::KeepChunk(from, to, _) => {
+                    // UNWRAP: `KeepChunk` ops only exist when base is `Some`.
+                    let base = updater.base.as_ref().unwrap();
+                    (*from..*to)
+                        .map(|i| {
+                            let (k, v, o) = base.key_cell(i);
+                            (k, v.to_vec(), o)
+                        })
+                        .collect()
+                }
+            })
+            .collect();
+        Output {
+            built,
+            stages: results,
+            pending,
+            pending_separator: updater.separator_override,
+        }
     }
 }
 
